@@ -368,6 +368,7 @@ type FuncSpec struct {
 	UnrollLoops map[string]bool // "callee:ord": with inline-calls, only these loops of the inlined callees are unrolled; the others are cut by the callee's own invariants
 	Cases       []*Clause // case analysis over the inputs: the function is verified once per case (added to the preconditions); their disjunction is an obligation
 	InstReads   bool      // quantified hypotheses about a slice's object are instantiated at every index the code reads from it
+	SplitReturns bool     // (inline spec) the function's return paths are not merged at its call sites
 	PrunePaths  bool      // branches whose path condition a solver refutes (within 2 s) are not executed
 	InlineCalls []string // callees executed from their bodies (with this function's unroll bound) although they have contracts
 	UnrollComplete bool
@@ -398,7 +399,7 @@ type Contracts struct {
 	ConstBytes map[string][]byte // pkgpath.Name -> contents of a constant package-level byte slice
 }
 
-var clauseKw = regexp.MustCompile(`^(split-paths|prune-paths|instantiate-reads|unroll-loops|case|requires|ensures|modifies|loop|end|inline-calls|int-overflow-checked|inline|trusted|pure-effects|noalloc|unroll|reveal)\b`)
+var clauseKw = regexp.MustCompile(`^(split-paths|split-returns|prune-paths|instantiate-reads|unroll-loops|case|requires|ensures|modifies|loop|end|inline-calls|int-overflow-checked|inline|trusted|pure-effects|noalloc|unroll|reveal)\b`)
 var labelRe = regexp.MustCompile(`^([A-Za-z_][A-Za-z0-9_]*)\s*(\[[A-Z0-9, ]*\])?\s*:\s*(.*)$`)
 
 func parseTags(s string) []string {
@@ -641,6 +642,8 @@ func (cs *Contracts) parseFile(pkg, file, data string) {
 			cur.SplitPaths = true
 		case s == "prune-paths":
 			cur.PrunePaths = true
+		case s == "split-returns":
+			cur.SplitReturns = true
 		case s == "instantiate-reads":
 			cur.InstReads = true
 		case s == "trusted":
